@@ -90,6 +90,16 @@ class FrameV(object):
         self.field = field
 
 
+class OpaqueV(object):
+    """attribute whose value is not modelled beyond its identity (owner, field)"""
+
+    __slots__ = ("owner", "field")
+
+    def __init__(self, owner, field):
+        self.owner = owner
+        self.field = field
+
+
 class Opt(object):
     """value that may be None"""
 
@@ -337,6 +347,8 @@ class Heap(object):
             return Opt(self.nonearr(field).select(term), HistV(RefV(term, None), field))
         if t == "frame":
             return FrameV(RefV(term, None), field)
+        if t == "opaque":
+            return OpaqueV(RefV(term, None), field)
         if t == "list":
             return ListV(RefV(term, None), field)
         if t == "dict":
@@ -434,10 +446,19 @@ class Heap(object):
         else:
             self.maps[key] = HMap(a, fresh, cond)
 
+    def ensure_ghost_bool(self, key):
+        a = self.maps.get(key)
+        if a is None:
+            a = ZMap(z3.Const("%s@%s" % (key, self.tag), z3.ArraySort(Ref, z3.BoolSort())))
+            self.maps[key] = a
+        return a
+
     def ensure(self, key):
         """create the base map for a heap key (field or field#suffix)"""
         if key in self.maps:
             return self.maps[key]
+        if key.startswith("tmp#"):
+            return self.ensure_ghost_bool(key)
         if "#" in key:
             f, suf = key.split("#", 1)
             if suf == "nan":
